@@ -33,12 +33,12 @@ SEED = int(os.environ.get("VERIF_SEED", "1"))
 TYPES = {
     "u8": "uint8_t", "i8": "int8_t", "char": "char", "byte": "std::byte", "u16": "uint16_t", "i16": "int16_t",
     "u32": "uint32_t", "i32": "int32_t", "u64": "uint64_t", "i64": "int64_t", "f32": "float", "f64": "double",
-    "ptr": "int*", "bool": "bool", "enumE": "vf::EnumE", "B3": "vf::B3", "B12": "vf::B12",
+    "ptr": "int*", "bool": "bool", "enumE": "vf::EnumE", "B3": "vf::B3", "B12": "vf::B12", "M8": "vf::Mod8",
     "Tr4": "vf::Tracked<4>", "Tr8": "vf::Tracked<8>", "Tr24": "vf::Tracked<24>", "TrMv8": "vf::Tracked<8, false>",
     "str": "std::string", "uptr": "std::unique_ptr<int>",
 }
 SIZES = {"u8": 1, "i8": 1, "char": 1, "byte": 1, "u16": 2, "i16": 2, "u32": 4, "i32": 4, "u64": 8, "i64": 8, "f32": 4,
-         "f64": 8, "ptr": 8, "bool": 1, "enumE": 1, "B3": 3, "B12": 12, "Tr4": 4, "Tr8": 8, "Tr24": 24, "TrMv8": 8,
+         "f64": 8, "ptr": 8, "bool": 1, "enumE": 1, "B3": 3, "B12": 12, "M8": 1, "Tr4": 4, "Tr8": 8, "Tr24": 24, "TrMv8": 8,
          "str": 32, "uptr": 8}
 NONTRIVIAL = {"Tr4", "Tr8", "Tr24", "TrMv8", "str", "uptr"}
 MOVEONLY = {"TrMv8", "uptr"}
